@@ -33,6 +33,8 @@ func runC07(c *Ctx) {
 	rwLayer(c, "C07.R5")
 	// what the source map walks is Expression.Value from Expression.Range.From: the value must be the consumed text
 	expressionTextFromInput(c, "C07.R9")
+	// … and the range recorded for parsed text must bracket it
+	parsedTextRange(c, "C07.R10")
 }
 
 func fabricatedExpressions(c *Ctx, rule string) {
